@@ -73,6 +73,26 @@ func TestVerifC08Client(t *testing.T) {
 								name, after, r.Name(), r.StartKey(), r.StopKey(), d.Start, d.Stop)
 						}
 					}
+					// a lookup of a key inside a cached region that is the cluster's current region for that key finds that region
+					for _, r := range rs {
+						d := defined[string(r.Name())]
+						if d == nil || !d.Online {
+							continue
+						}
+						key := append(append([]byte{}, d.Start...), 1)
+						if len(d.Stop) > 0 && bytes.Compare(key, d.Stop) >= 0 {
+							key = append([]byte{}, d.Start...)
+						}
+						got := c.getRegionFromCache([]byte(d.Table), key)
+						if got == nil || !bytes.Equal(got.Name(), r.Name()) {
+							var gn []byte
+							if got != nil {
+								gn = got.Name()
+							}
+							rep.bad("cached-region-not-found-by-lookup", "%s after %s: %q is cached and is the cluster's region for key %q of table %q, but the cache lookup returns %q",
+								name, after, r.Name(), key, d.Table, gn)
+						}
+					}
 					for i := range rs {
 						for j := i + 1; j < len(rs); j++ {
 							a, b := rs[i], rs[j]
